@@ -4,7 +4,7 @@
 (* of two, and the universe / extension pool for the path-law recorder (pipeline V, Trace_PathLaws).             *)
 EXTENDS Names, Naturals, Sequences, FiniteSets, TLC, Json
 CONSTANTS MaxLen
-VARIABLES done
+VARIABLE idx
 Alphabet == <<97, 65, 98, 95, 46, 47, 48>>          \* a A b _ . / 0
 RECURSIVE StrsOfLen(_)
 StrsOfLen(n) == IF n = 0 THEN {<<>>} ELSE {Append(s, Alphabet[i]) : s \in StrsOfLen(n - 1), i \in 1..Len(Alphabet)}
@@ -22,11 +22,14 @@ ExtPool == << <<120>>, <<46, 120>>, <<97, 66>>, <<46, 84, 120, 116>>, <<48>>, <<
 \* the extension may be given with or without its leading dot
 ExtEntry(e) == [ext |-> e, variants |-> SetToSeq(Variants(e) \cup (IF e # <<>> /\ e[1] = 46 THEN {Tail(v) : v \in Variants(e)} ELSE {<<46>> \o v : v \in Variants(e)}))]
 Emit(id, steps) == PrintT("S|" \o ToJson([id |-> id, steps |-> steps]))
-Init == done = FALSE
-Next == /\ ~done /\ done' = TRUE
-        /\ \A i \in 1..Len(USeq) : Emit(<<"rel", i>>, << [op |-> "names_rel", pairs |-> Pairs(USeq[i])] >>)
-        /\ PrintT("P|" \o ToJson([exponents |-> SetToSeq(0..31)]))
-        /\ Emit(<<"paths">>, << [op |-> "path_laws", universe |-> USeq, extensions |-> [k \in 1..Len(ExtPool) |-> ExtEntry(ExtPool[k])]] >>)
-        /\ \A salt \in 1..4 : Emit(<<"cmp", salt>>, << [op |-> "cmp_random", salt |-> salt, count |-> 400] >>)
-Spec == Init /\ [][Next]_done
+\* one TLC state per exported record: idx 1..|U| = the relation row of the idx-th string, then the path-law universe, the random-triple
+\* recordings and the exponent set
+NU == Len(USeq)
+Init == idx \in 1..(NU + 6)
+Next == UNCHANGED idx
+Spec == Init /\ [][Next]_idx
+Export == IF idx <= NU THEN Emit(<<"rel", idx>>, << [op |-> "names_rel", pairs |-> Pairs(USeq[idx])] >>)
+          ELSE IF idx = NU + 1 THEN PrintT("P|" \o ToJson([exponents |-> SetToSeq(0..31)]))
+          ELSE IF idx = NU + 2 THEN Emit(<<"paths">>, << [op |-> "path_laws", universe |-> USeq, extensions |-> [k \in 1..Len(ExtPool) |-> ExtEntry(ExtPool[k])]] >>)
+          ELSE Emit(<<"cmp", idx - NU - 2>>, << [op |-> "cmp_random", salt |-> idx - NU - 2, count |-> 400] >>)
 ====
